@@ -1723,6 +1723,12 @@ def hash_kinds(tree: ast.Module) -> tuple[list[tuple[str, str]], dict]:
                 for a in n.args:
                     walk(a)
                 return
+            if isinstance(n, (ast.GeneratorExp, ast.ListComp)) and len(n.generators) == 1 and not n.generators[0].ifs and not n.generators[0].is_async \
+                    and isinstance(n.generators[0].target, ast.Name) and isinstance(n.generators[0].iter, (ast.Tuple, ast.List)):
+                # `round(v, 6) for v in (self._x, self._y, self._z)`: the element expression once per item
+                for item in n.generators[0].iter.elts:
+                    walk(_subst(n.elt, {n.generators[0].target.id: item}))
+                return
             if isinstance(n, ast.Name):
                 ok = False          # any free name (self as a whole, id, a global) is not a slot
                 return
